@@ -54,6 +54,12 @@ theorem implSubmits_stepType (m : Mode) (hd : Bool) :
     Dispatch.implSubmits (stepType m hd) = (m.submits || hd) := by
   cases hd <;> cases m <;> simp [stepType, Mode.submits] <;> decide
 
+/-- with the extracted tables of the fixed tree (4f7ebfc) the head of a returned Task starts like any source: a ReadyCore
+    publishes, a Run-type Core / PromiseCore submits itself to its executor -/
+theorem enterHere_eq (cfg : Cfg) (src : Src) (ctx : Option Nat) (g : G) :
+    enterHere cfg src ctx g = startSrc cfg src ctx g := by
+  cases src <;> simp [enterHere, Dispatch.asyncEntry, Dispatch.implRunEntry, Dispatch.promiseCoreHere]
+
 /-! ### the accounting helpers touch only their own counters -/
 
 section acct
